@@ -3,8 +3,8 @@
    Geobj.compute_connections / compute_ground / Pulse.__init__ by correspondence
    stage `topo` (pulse points, ends, segments, signs, ground flags, per-object
    lists, end_segs on random wire graphs, perturbed ends, with/without ground). *)
-From Coq Require Import ZArith List Bool Arith.
-From PM Require Import Base.Num Base.Cplx Model.Topology Proofs.TopologyP.
+From Coq Require Import ZArith List Bool Arith Reals.
+From PM Require Import Base.Num Base.RNum Base.Cplx Gen.Extracted Model.Topology Proofs.TopologyP.
 Import ListNotations.
 
 (* number of pulses, every numeric instance: per object
@@ -74,3 +74,16 @@ Theorem C12_matching :
     (exists k' v, In (k', v) (fst r) /\ (k' = pt \/ v3eqb pt k' = true)).
 Proof. intros N. exact match_end_spec. Qed.
 Print Assumptions C12_matching.
+
+(* which ends count as grounded (EXTRACTED from Geobj.compute_ground, translator item X16; the model cases of stage
+   `topo` evaluate this very definition): an end is on the ground plane exactly when its height is within eps of it,
+   on either side *)
+Theorem C12_grounded_iff_within_eps :
+  forall z1 z2 eps : R,
+    (fst (@gnd_flags RNum z1 z2 eps) = true <-> (Rabs z1 < eps)%R) /\
+    (snd (@gnd_flags RNum z1 z2 eps) = true <-> (Rabs z2 < eps)%R).
+Proof.
+  intros z1 z2 eps. unfold gnd_flags. cbn [fst snd ltb nabs RNum]. unfold Rltb.
+  split; (destruct (Rlt_dec _ eps); split; intros H; [assumption|reflexivity|discriminate|contradiction]).
+Qed.
+Print Assumptions C12_grounded_iff_within_eps.
